@@ -295,6 +295,11 @@ def _cat() -> List[Edit]:
         E("C16", "model-original-line-dropped", "node_visitor.py", "                    new_lines = [\"{}{}\\n\".format(\" \" * indentation, ignore), this_line]", "                    new_lines = [\"{}{}\\n\".format(\" \" * indentation, ignore)]", "BREAK", "add-ignores-model::"),
         E("C16", "model-trailing-ignore-covers-next-line", "node_visitor.py", "                    prev_line == ignore_comment\n                    or error_code is not None\n                    and prev_line == f\"{ignore_comment}[{error_code.name}]\"", "                    ignore_comment in prev_line", "BREAK", "add-ignores-model::"),
         E("C16", "keep-model-indentation-expression", "node_visitor.py", "                    new_lines = [\"{}{}\\n\".format(\" \" * indentation, ignore), this_line]", "                    new_lines = [\" \" * indentation + ignore + \"\\n\", this_line]", "KEEP"),
+        E("C02", "model-promoted-int-lost-after-assert-is-instance", "stacked_scopes.py", "                        # A float may be an int at runtime (and a complex a float or int).\n                        for promoted in _PROMOTED_TYPES.get(inner_value.typ, ()):", "                        for promoted in ():", "BREAK", "constraint-model::is_instance::positive::keeps"),
+        E("C02", "model-equals-bool-complement-wrong", "predicates.py", "                    return KnownValue(not self.pattern_val)", "                    return KnownValue(self.pattern_val)", "BREAK", "narrowing-model::EqualsPredicate::negative"),
+        E("C02", "model-is-not-uses-equality", "stacked_scopes.py", "                    isinstance(inner_value, KnownValue)\n                    and inner_value.val is self.value\n                ):\n                    yield value", "                    isinstance(inner_value, KnownValue)\n                    and inner_value.val == self.value\n                ):\n                    yield value", "BREAK", "constraint-model::is_value::negative::keeps"),
+        E("C02", "model-truthy-polarity-swapped", "stacked_scopes.py", "                if not boolability.is_safely_false():\n                    yield value\n            else:\n                if not boolability.is_safely_true():", "                if not boolability.is_safely_true():\n                    yield value\n            else:\n                if not boolability.is_safely_false():", "BREAK", "constraint-model::is_truthy"),
+        E("C02", "model-one-of-applies-only-first", "stacked_scopes.py", "            for constraint in self.value:\n                yield from constraint.apply_to_value(value)", "            for constraint in self.value[:1]:\n                yield from constraint.apply_to_value(value)", "BREAK", "constraint-model::one_of"),
         E("C16", "keep-reversed-sorted", "node_visitor.py", "lines_to_remove = sorted(lines_to_remove, reverse=True)", "lines_to_remove = list(reversed(sorted(lines_to_remove)))", "KEEP"),
         E("C17", "keep-regex-class-order", "format_strings.py", "(?P<conversion_type>[diouxXeEfFgGcrs%ba])", "(?P<conversion_type>[abcdeEfFgGiorsuxX%])", "KEEP"),
         E("C18", "keep-sort-key-via-locals", "options.py", "        return (\n            not self.from_command_line,  # command line options first\n            self.priority,  # lower priority number first\n            -len(self.applicable_to),  # longest options first\n        )", "        return (\n            not self.from_command_line,\n            self.priority,\n            -len(self.applicable_to),\n        )", "KEEP"),
